@@ -3,7 +3,8 @@
     arbitrary oracle record [O] (the external cryptography); hypotheses about it are explicit. *)
 From V.Lib Require Import Base Hex.
 From V.Gen Require Import C11Consts.
-From V.C11 Require Import Model Spec Corr Wf ProofsAddr ProofsCodec Bridge.
+From V.Gen Require Import C11Legacy.
+From V.C11 Require Import Model Spec Tab Eqb Legacy CorrLegacy Gap CorrGap Corr Wf ProofsAddr ProofsCodec ProofsLegacy ProofsGap Bridge.
 Local Open Scope N_scope.
 
 (* ---------------------------------------------------------------------------------------- *)
@@ -213,6 +214,98 @@ Proof. exact usk_roundtrip_addresses. Qed.
 Theorem C11_ufvk_encode_panics_iff_transparent_only : forall net k,
   unknown_ok (fvk_unknown k) -> (ufvk_encode net k = Panic <-> ufvk_encodable k = false).
 Proof. exact ufvk_encode_panics. Qed.
+
+(* ---------------------------------------------------------------------------------------- *)
+(** ** legacy Sapling / transparent encodings (zcash_keys::encoding) *)
+
+Theorem C11_extfvk_network_table : forall net,
+  net < 3 -> arms_lookup EXTFVK_ARMS (nc_hrp LFvk net) = Some net.
+Proof. exact extfvk_arms_agree. Qed.
+
+Theorem C11_extfvk_network_table_exact : forall h, arms_lookup EXTFVK_ARMS h = spec_extfvk_network h.
+Proof. exact extfvk_arms_spec. Qed.
+
+Theorem C11_legacy_hrp_injective : forall k net net',
+  net < 3 -> net' < 3 -> bytes_eqb (nc_hrp k net) (nc_hrp k net') = true -> net = net'.
+Proof. exact hrp_injective. Qed.
+
+Theorem C11_legacy_hrp_kinds_disjoint : forall k k' net net',
+  net < 3 -> net' < 3 -> k <> k' -> bytes_eqb (nc_hrp k net) (nc_hrp k' net') = false.
+Proof. exact hrp_kinds_disjoint. Qed.
+
+Theorem C11_transparent_prefix_table : forall net net',
+  net < 3 -> net' < 3 ->
+  length (nc_pubkey net) = 2%nat /\ length (nc_script net) = 2%nat
+  /\ bytes_eqb (nc_pubkey net) (nc_script net') = false
+  /\ bytes_eqb (nc_pubkey net) (nc_pubkey net') = same_t_family net net'
+  /\ bytes_eqb (nc_script net) (nc_script net') = same_t_family net net'.
+Proof. exact t_prefix_table. Qed.
+
+Theorem C11_legacy_bech32_roundtrip : forall k prim hrp payload key,
+  reader k prim payload = OSome key ->
+  let (h, d) := legacy_encode hrp payload in
+  legacy_decode k prim hrp (BStr h d) = Ok key
+  /\ forall hrp', bytes_eqb hrp hrp' = false -> legacy_decode k prim hrp' (BStr h d) = Err BHrpMismatch.
+Proof. exact legacy_roundtrip. Qed.
+
+Theorem C11_extfvk_with_network_roundtrip : forall prim net payload key,
+  net < 3 -> prim payload = OSome key ->
+  let (h, d) := legacy_encode (nc_hrp LFvk net) payload in
+  decode_extfvk_with_network prim (BStr h d) = Ok (net, key)
+  /\ legacy_decode LFvk prim (nc_hrp LFvk net) (BStr h d) = Ok key.
+Proof. exact extfvk_with_network_roundtrip. Qed.
+
+Theorem C11_extfvk_with_network_sound : forall prim h d net key,
+  decode_extfvk_with_network prim (BStr h d) = Ok (net, key) ->
+  net < 3 /\ h = nc_hrp LFvk net /\ prim d = OSome key.
+Proof. exact extfvk_with_network_sound. Qed.
+
+Theorem C11_transparent_roundtrip : forall pk sh a,
+  length pk = length sh -> bytes_eqb sh pk = false -> taddr_wf a ->
+  t_decode pk sh (Some (t_encode pk sh a)) = Ok (Some a).
+Proof. exact t_roundtrip. Qed.
+
+Theorem C11_transparent_network_roundtrip : forall n0 net a,
+  n0 < 3 -> net < 3 -> taddr_wf a ->
+  t_codec_decode net (Some (t_encode (nc_pubkey n0) (nc_script n0) a))
+  = if same_t_family n0 net then Ok a else Err TUnsupported.
+Proof. exact t_network_roundtrip. Qed.
+
+(* ---------------------------------------------------------------------------------------- *)
+(** ** gap_limits.rs: generated addresses belong to the key *)
+
+Theorem C11_gap_range_iterator : forall start end_,
+  end_ <= NON_HARDENED_MAX ->
+  nh_range start end_ = upfrom start (if start <? end_ then N.to_nat (end_ - start) else 1%nat).
+Proof. exact nh_range_spec. Qed.
+
+Theorem C11_gap_range_never_empty : forall start end_, nh_range start end_ <> [].
+Proof. exact nh_range_never_empty. Qed.
+
+Theorem C11_gap_saturating_add_bound : forall i d, nh_saturating_add i d <= NON_HARDENED_MAX.
+Proof. exact nh_saturating_add_bound. Qed.
+
+Theorem C11_gap_list_belongs : forall O sivk k f scope r start end_ rk out,
+  generate_address_list O sivk k f scope r start end_ rk = Ok out ->
+  match match f with Some fk => fvk_t fk | None => None end with
+  | None => out = []
+  | Some pk => map snd out = nh_range start end_ /\ Forall (spec_entry O sivk k pk r scope) out
+  end.
+Proof. exact generate_address_list_belongs. Qed.
+
+Theorem C11_gap_list_scopes : forall O sivk k f scope r start end_ rk out,
+  generate_address_list O sivk k f scope r start end_ rk = Ok out -> out <> [] -> scope < 3.
+Proof. exact generate_address_list_scopes. Qed.
+
+Theorem C11_gap_generate_belongs : forall O sivk g k f scope r rk find st out,
+  generate_gap_addresses O sivk g k f scope r rk find st = Ok (Some out) ->
+  exists gl gs, limit_for g scope = Some gl /\ find = Ok (Some gs) /\ st = true
+    /\ generate_address_list O sivk k f scope r gs (nh_saturating_add gs gl) rk = Ok out.
+Proof. exact generate_gap_addresses_belongs. Qed.
+
+Theorem C11_gap_generate_nothing : forall O sivk g k f scope r rk find st,
+  generate_gap_addresses O sivk g k f scope r rk find st = Ok None -> find = Ok None.
+Proof. exact generate_gap_addresses_nothing. Qed.
 
 (* ---------------------------------------------------------------------------------------- *)
 (** ** bridge (partial): agreement with the model implies the property *)
